@@ -148,8 +148,9 @@ pub fn run<'i>(p: &Prog, s: St<'i>, cx: &Ctx) -> ParseResult<St<'i>> {
         Soi => s.start_of_input(), Eoi => s.end_of_input(),
         PushLit(x) => s.stack_push_literal(x.clone()),
         Peek => s.stack_peek(), Pop => s.stack_pop(), Drop => s.stack_drop(),
-        MPeek => s.stack_match_peek(), MPop => s.stack_match_pop(),
-        Slice(i, j, d) => s.stack_match_peek_slice(*i, *j, if *d { MatchDir::BottomToTop } else { MatchDir::TopToBottom }),
+        MPeek => prim_checked(cx, "stack_match_peek", s, |s| s.stack_match_peek()),
+        MPop => prim_checked(cx, "stack_match_pop", s, |s| s.stack_match_pop()),
+        Slice(i, j, d) => prim_checked(cx, "stack_match_peek_slice", s, |s| s.stack_match_peek_slice(*i, *j, if *d { MatchDir::BottomToTop } else { MatchDir::TopToBottom })),
         Tag(t) => s.tag_node(TAGS[*t % 4]),
         Rule(r, q) => {
             let before = s.verif_dump();
@@ -197,6 +198,18 @@ pub fn run<'i>(p: &Prog, s: St<'i>, cx: &Ctx) -> ParseResult<St<'i>> {
         IfNa(a, b) => if s.atomicity() == Atomicity::NonAtomic { run(a, s, cx) } else { run(b, s, cx) },
         Call(f) => match cx.env.get(*f) { Some(q) => run(q, s, cx), None => panic!("undefined closure") },
     }
+}
+
+/// primitive contract (C03): a primitive that fails does not move
+fn prim_checked<'i>(cx: &Ctx, name: &str, s: St<'i>, f: impl FnOnce(St<'i>) -> ParseResult<St<'i>>) -> ParseResult<St<'i>> {
+    let before = s.position().pos();
+    let r = f(s);
+    if let Result::Err(ref e) = r {
+        if e.position().pos() != before && !cx.diverged.get() {
+            cx.contract.borrow_mut().push(format!("failing primitive {} moved the position from {} to {}", name, before, e.position().pos()));
+        }
+    }
+    r
 }
 
 /// rule contract (C03): one balanced Start/End pair around exactly the body's tokens, spanning
